@@ -321,6 +321,7 @@ def conclude(pid, tier, seed, t0, R, spec, proof, runs, ins, outs, fails, workdi
         'out_of_scope_tags': dict(collections.Counter(t for (_, _, ts) in outs for t in ts)),
         'oracle_failures': len(real_fails), 'known_findings_hit': len(known_hits),
         'params_impl': proof.get('params'),
+        'translated_source': proof.get('translated_source'), 'source_ties_not_available': proof.get('ties_not_available', []),
     }
     if extra_cov:
         cov.update(extra_cov)
